@@ -1,0 +1,23 @@
+//go:build verif
+
+// Contracts for govc (see /verif/DESIGN.md). Comment-only; compiled only with -tags verif.
+
+package sysloginput
+
+//@ property C19
+
+// lastparsed: ghost - what the underlying parser returned (it has counted the line as passed iff this is not nil: C09)
+//@ ghost var lastparsed *base.LogRecord
+//@ extern func (p base.LogParser) Parse(input []byte, timestamp time.Time) *base.LogRecord
+//@   modifies everything
+//@   ghostset lastparsed := result
+
+// C19 "pipeline passed plus dropped equals input passed": a record the parser has counted as passed and an extraction
+// transform then drops never reaches a pipeline, so it has to be counted as dropped here. Functional-only unit (flag
+// nosafety): the safety of the callees is decided in their own units.
+//@ func (cp *compositeParser) Parse(input []byte, timestamp time.Time) *base.LogRecord
+//@   flag nosafety
+//@   requires cp != nil
+//@   modifies everything
+//@   ensures[parsed-record-is-returned-or-counted-as-dropped] lastparsed != nil && result == nil ==> ncalls("base.LogInputCounterSet.CountRecordDrop") == old(ncalls("base.LogInputCounterSet.CountRecordDrop")) + 1
+//@   ensures[rejected-line-stays-rejected] lastparsed == nil ==> result == nil
